@@ -27,9 +27,9 @@ DAY = 86400
 
 
 def plan(tier, seed):
-    n = 24 if tier == 'quick' else 400
-    return [{'kind': 'chains', 'count': 20 if tier == 'quick' else 64, 'weight': 3} for _ in range(n)] + \
-           [{'kind': 'profile', 'weight': 3} for _ in range(4 if tier == 'quick' else 24)]
+    n = 48 if tier == 'quick' else 400
+    return [{'kind': 'chains', 'count': 48 if tier == 'quick' else 64, 'weight': 3} for _ in range(n)] + \
+           [{'kind': 'profile', 'weight': 3} for _ in range(8 if tier == 'quick' else 24)]
 
 
 def worker_init(ctx):
